@@ -43,7 +43,7 @@ class I2CSpec(Spec):
 
     def __init__(self, cfg, tier):
         super().__init__(cfg, tier)
-        self.time_budget = 34 if tier == "quick" else 840
+        self.time_budget = 240 if tier == "quick" else 840
         p = cfg["period_cyc"] // 4
         self.stall_bound = 6 * (p + 1) + 12
         ops = [("S",), ("P",)]
